@@ -1,4 +1,5 @@
-\* q_stale: see checks/ringlookup_common.py (UNIVERSES) for what this universe is for
+\* q_stale: C02: unhealthy non-extending instances: ACTIVE x {edge,stale}, zones 0..3, tokenless allowed
+\* (generated from UNIVERSES in checks/ringlookup_common.py: python3 checks/ringlookup_common.py --write-cfgs)
 CONSTANTS
   NK = 4
   Gaps = {1}
@@ -11,10 +12,13 @@ CONSTANTS
   RFMax = 3
   Canon = 2
   WithRemove = FALSE
+  Excl = {}
   EmitOn = TRUE
+  EmitSets = TRUE
+  XMax = 0
 INIT Init
 NEXT Next
 VIEW View
-INVARIANTS TypeOK SizeOK ZoneOK ClockwiseFirst SlackExact WalkDefsAgree QuorumIntersection Emit
+INVARIANTS TypeOK SizeOK ZoneOK ClockwiseFirst SlackExact WalkDefsAgree QuorumIntersection ExpandedOK Emit
 PROPERTIES MinimalDisruption
 CHECK_DEADLOCK FALSE
